@@ -17,7 +17,7 @@ L3: the property statement evaluated on the real code, independent of the Lean m
     the difference is an operator-splitting error (ratio per decade of Integration.timescale_factor in [5, 20] when the last
     epoch has migration; decreasing otherwise).
 """
-import inspect, importlib, json, math, time
+import inspect, importlib, json, math, re, time
 import numpy as np
 from . import common
 from .common import rat
@@ -117,6 +117,17 @@ def draw(rng, names, edge=True):
         elif kind(n) == 'mig' and want_resolved and p[n] * big > MIG_RESOLVED:
             p[n] = coarse(rng.uniform(0, MIG_RESOLVED / big))
     return p
+
+def has_branches(ctx, m):
+    """does the body of the model function contain an `if` (directly, or in the model it delegates to)"""
+    if 'ifs' not in m:
+        try:
+            import ast as _ast, textwrap
+            tree = _ast.parse(textwrap.dedent(inspect.getsource(m['f'])))
+            m['ifs'] = any(isinstance(n, (_ast.If, _ast.IfExp)) for n in _ast.walk(tree))
+        except Exception:
+            m['ifs'] = False
+    return m['ifs'] or ctx.get('_branches', {}).get(m['name'], 1) > 1
 
 def model_dim(m):
     """number of populations: run at zero-length epochs (nothing is integrated)"""
@@ -407,10 +418,13 @@ def k_tables(chk, ctx, models):
     ctx['_sigs'] = sigs
     ctx['_prims'] = [s[0] for s in sigs]
     ctx['_integrators'] = [s[0] for s in sigs if s[4] == 1]
-    ctx['_wf'] = {}
+    ctx['_wf'] = {}; ctx['_branches'] = {}; ctx['_wiring'] = {}
     for n, pn, an in tbl:
         r = driver.ask('c15.wf ' + n)
         ctx['_wf'][n] = (r == 'ok 1')
+        r = driver.ask('c15.wiring ' + n).split()
+        if r and r[0] == 'ok':
+            ctx['_wiring'][n] = (r[1] == '1'); ctx['_branches'][n] = int(r[2])
     return tbl
 
 def spectrum_checks(dadi, fs, ns, pts, judge_sign=True):
@@ -440,7 +454,7 @@ def run_model(chk, ctx, m, p, ns, record=True):
     v = vec(m, p); name = m['name']
     ok = True
     for pts in PTS:
-        rec = Recorder(dadi, ctx['_prims']) if (record and pts == PTS[0] and driver is not None and driver.ok()) else None
+        rec = Recorder(dadi, ctx['_prims'] or DEFAULT_PRIMS) if (record and pts == PTS[0]) else None
         t0 = time.time()
         try:
             with np.errstate(all='ignore'):
@@ -460,6 +474,11 @@ def run_model(chk, ctx, m, p, ns, record=True):
             chk.fail('%s:%s' % (name, key), '%s(%r, %r, %d): %s' % (name, v, ns, pts, what), case_input('run', m, p, ns, pts))
             ok = False
         if rec is not None:
+            # which branch of the model body ran (read off the calls the real function made) and the wiring of its arguments
+            bid = '>'.join(c['fn'].split('.')[1] for c in rec.calls)
+            m.setdefault('branches_hit', {}); m['branches_hit'][bid] = m['branches_hit'].get(bid, 0) + 1
+            wiring_values(chk, m, p, rec, ns, pts)
+        if rec is not None and driver is not None and driver.ok():
             r = driver.ask('c15.trace %s %s' % (name, wire_args(m, v)))
             if not r.startswith('ok '):
                 chk.k_bad('c15.trace', case_input('run', m, p, ns, pts), 'runs (%d calls)' % len(rec.calls), r, 'model refuses')
@@ -471,6 +490,40 @@ def run_model(chk, ctx, m, p, ns, record=True):
                 if why: chk.k_bad('c15.trace', case_input('run', m, p, ns, pts), [c['fn'] for c in rec.calls], r[:300], why)
                 else: chk.k_ok('c15.trace')
     return ok
+
+DEFAULT_PRIMS = ['PhiManip.phi_1D', 'PhiManip.phi_1D_to_2D', 'PhiManip.phi_2D_to_3D_split_1', 'PhiManip.phi_2D_to_3D_split_2',
+                 'PhiManip.phi_2D_to_3D_admix', 'PhiManip.phi_2D_admix_1_into_2', 'PhiManip.phi_2D_admix_2_into_1',
+                 'Integration.one_pop', 'Integration.two_pops', 'Integration.three_pops', 'Integration.four_pops',
+                 'Integration.five_pops', 'Spectrum.from_phi', 'Spectrum.from_phi_inbreeding']
+
+def family_index(name):
+    mm = re.match(r'^([^0-9]*)([0-9]*)', name)
+    return mm.group(1), mm.group(2)
+
+def wiring_values(chk, m, p, rec, ns, pts):
+    """L3, argument wiring on the real calls: the parameter values of a draw are distinct, so a keyword with a population index
+    (`gamma2`, `nu1`, `m21`) that receives *exactly* the value of a model parameter of the same family with another index
+    (`gamma1`) — while the parameter with its own index exists and has a different value — was wired to the wrong parameter"""
+    fams = {}
+    for n, v in p.items():
+        f, i = family_index(n)
+        if i: fams.setdefault((f, len(i)), []).append((i, n, v))
+    for c in rec.calls:
+        if not c['fn'].startswith('Integration.'): continue
+        for k, v in c['args'].items():
+            if callable(v) or isinstance(v, bool) or not isinstance(v, (int, float)) or v == 0: continue
+            f, i = family_index(k)
+            if not i or (f, len(i)) not in fams: continue
+            cands = fams[(f, len(i))]
+            right = [x for x in cands if x[0] == i]
+            if not right or any(x[2] == v for x in right): continue
+            wrong = [x for x in cands if x[0] != i and x[2] == v]
+            owners = [n for n, pv in p.items() if pv == v]            # edge values (1, the bounds) may be shared by several parameters
+            chk.l3((m['name'], 'wiring', c['fn'], k))
+            if wrong and set(owners) == set(x[1] for x in wrong):
+                chk.fail('%s:wiring:%s:%s' % (m['name'], c['fn'], k),
+                         '%s%r: %s is called with %s=%r, the value of parameter %s (parameter %s is %r)'
+                         % (m['name'], vec(m, p), c['fn'], k, v, wrong[0][1], right[0][1], right[0][2]), case_input('run', m, p, ns, pts))
 
 def first_bindings(f, k):
     """names bound by the first tuple unpacking in the byte code of `f` (or the first k stores when there is none)"""
@@ -558,38 +611,73 @@ def pair_args(args, pb):
     """argument expressions of a nesting pair -> values, given the parameter values `pb` of the simpler model"""
     return [coarse(ev(e, None, pb)) if e[0] != 'p' else pb[e[1]] for e in args]
 
-def nesting_check(chk, ctx, byname, group, a, b, args, rng, reps=1):
-    dadi = ctx['dadi']
+def free_params(exprs):
+    out = []
+    def walk(e):
+        if isinstance(e, list):
+            if e and e[0] == 'p' and e[1] not in out: out.append(e[1])
+            for x in e[1:]: walk(x)
+    for e in exprs: walk(e)
+    return out
+
+def conds_hold(conds, env):
+    for op, l, r, want in conds:
+        a, b = ev(l, None, env), ev(r, None, env)
+        got = {'>=': a >= b, '>': a > b, '<=': a <= b, '<': a < b, '==': a == b, '!=': a != b}[op]
+        if got != bool(int(want)): return False
+    return True
+
+def compare_pair(chk, ctx, ma, mb, a, b, va, vb, ns, pts, group, inp):
+    chk.l3(('nest', a, b))
+    try:
+        with np.errstate(all='ignore'):
+            fa = ma['f'](va, ns, pts); fb = mb['f'](vb, ns, pts)
+    except Exception as e:
+        chk.fail('%s->%s:nesting:%s' % (a, b, type(e).__name__), 'nesting pair %s%r vs %s%r raises %r' % (a, va, b, vb, e), inp)
+        return
+    da = np.asarray(fa.data, dtype=float); db = np.asarray(fb.data, dtype=float); mk = ~np.ma.getmaskarray(fb)
+    if da.shape != db.shape:
+        chk.fail('%s->%s:nesting:shape' % (a, b), 'shapes %r vs %r' % (da.shape, db.shape), inp); return
+    scale = float(np.max(np.abs(db[mk]))) if mk.any() else 0.0
+    err = float(np.max(np.abs(da[mk] - db[mk]))) if mk.any() else 0.0
+    if not (err <= 1e-8 * max(scale, 1e-300)):
+        chk.fail('%s->%s:nesting' % (a, b),
+                 '%s%r and %s%r differ by %.3e (scale %.3e) at the nesting point (%s)' % (a, va, b, vb, err, scale, group), inp)
+
+def nesting_check(chk, ctx, byname, group, a, b, args, rng, reps=1, args_b=None, conds=()):
+    """model `a` at the argument expressions `args` vs model `b` at `args_b` (default: b's own parameters), the free parameters
+    drawn in the documented bounds (distinct, non-zero: two selection coefficients are different) such that `conds` hold"""
     ma, mb = byname.get(a), byname.get(b)
     if ma is None or mb is None:
         chk.broken.append('model: nesting pair %s -> %s names a model that does not exist' % (a, b)); return
     d = model_dim(mb)
     if d is None or model_dim(ma) is None:
         chk.stat('nesting:skipped(model does not run)'); return           # reported by the per-model run
+    if args_b is None: args_b = [['p', n] for n in mb['pn']]
+    names = free_params(list(args) + list(args_b))
     for _ in range(reps):
-        pb = draw(rng, mb['pn'], edge=False)
-        pb, lam = fit_budget(mb, pb, d, ctx['tier'], scale=0.35)
+        env = None
+        for _try in range(20):
+            cand = draw(rng, names, edge=False)
+            try:
+                if conds_hold(conds, cand): env = cand; break
+            except Stuck as e:
+                chk.broken.append('model: nesting pair %s -> %s: %s' % (a, b, e)); return
+        if env is None:
+            chk.broken.append('model: nesting pair %s -> %s: the branch conditions were not met in 20 draws' % (a, b)); return
         try:
-            va = pair_args(args, pb)
+            pb = dict(zip(mb['pn'], pair_args(args_b, env)))
+            pb2, lam = fit_budget(mb, pb, d, ctx['tier'], scale=0.35)
+            if lam < 1:
+                for n in env:
+                    if kind(n) == 'time': env[n] = coarse(env[n] * lam)
+                if not conds_hold(conds, env): continue
+            va = pair_args(args, env); vb = pair_args(args_b, env)
         except Stuck as e:
             chk.broken.append('model: nesting pair %s -> %s: %s' % (a, b, e)); return
         ns = ns_for(rng, d, mb); pts = int(PTS[int(rng.integers(2))])
-        inp = dict(kind='nesting', group=group, a=a, b=b, args=args, params_b=pb, ns=list(ns), pts=pts)
-        chk.l3(('nest', a, b))
-        try:
-            with np.errstate(all='ignore'):
-                fa = ma['f'](va, ns, pts); fb = mb['f'](vec(mb, pb), ns, pts)
-        except Exception as e:
-            chk.fail('%s->%s:nesting:%s' % (a, b, type(e).__name__), 'nesting pair %s%r vs %s%r raises %r' % (a, va, b, vec(mb, pb), e), inp)
-            continue
-        da = np.asarray(fa.data, dtype=float); db = np.asarray(fb.data, dtype=float); mk = ~np.ma.getmaskarray(fb)
-        if da.shape != db.shape:
-            chk.fail('%s->%s:nesting:shape' % (a, b), 'shapes %r vs %r' % (da.shape, db.shape), inp); continue
-        scale = float(np.max(np.abs(db[mk]))) if mk.any() else 0.0
-        err = float(np.max(np.abs(da[mk] - db[mk]))) if mk.any() else 0.0
-        if not (err <= 1e-8 * max(scale, 1e-300)):
-            chk.fail('%s->%s:nesting' % (a, b),
-                     '%s%r and %s%r differ by %.3e (scale %.3e) at the nesting point (%s)' % (a, va, b, vec(mb, pb), err, scale, group), inp)
+        inp = dict(kind='nesting', group=group, a=a, b=b, args=args, args_b=args_b, env=env, ns=list(ns), pts=pts)
+        compare_pair(chk, ctx, ma, mb, a, b, va, vb, ns, pts, group, inp)
         chk.stat('nesting:' + group)
 
 def swap_err(dadi, m, v, vs, ns, pts, tf):
@@ -776,6 +864,9 @@ def _run(chk, ctx):
     for m in models:
         if len(m['argn']) == 3 and ctx['_wf'].get(m['name']) is False:
             chk.broken.append('model: %s is not well-formed in the generated table (C15_wellformed cannot hold)' % m['name'])
+        if len(m['argn']) == 3 and ctx.get('_wiring', {}).get(m['name']) is False:
+            chk.broken.append('model: %s passes a population-indexed parameter to a keyword of another index in some branch (C15_wiring cannot hold)' % m['name'])
+    chk.stat('models_with_branches', sum(1 for v in ctx.get('_branches', {}).values() if v > 1))
     # ---- every model: arity, runs
     t_start = time.time()
     for m in models:
@@ -802,6 +893,21 @@ def _run(chk, ctx):
                 extrap_check(chk, ctx, m, p, ns)
             if len(chk.samples) < 6 and rng.random() < 0.08:
                 chk.sample(dict(model=m['name'], params=p, ns=list(ns), pts=list(PTS), shrink=lam))
+        # models whose body branches on a comparison of parameters: reach every branch on every run.  The comparisons in the
+        # library are between epoch lengths, so one draw with the times in increasing and one in decreasing order of the
+        # parameter list does it (generic parameters otherwise: distinct, non-zero)
+        times = [n for n in m['pn'] if kind(n) == 'time']
+        if has_branches(ctx, m) and len(times) >= 2:
+            for order in ('increasing', 'decreasing'):
+                p = draw(rng, m['pn'], edge=False)
+                vals = sorted((p[n] for n in times), reverse=(order == 'decreasing'))
+                if len(set(vals)) < len(vals): continue
+                for n, v in zip(times, vals): p[n] = v
+                p, lam = fit_budget(m, p, d, tier)
+                chk.stat('branch_draws')
+                run_model(chk, ctx, m, p, ns_for(rng, d, m))
+        for bid, cnt in sorted(m.get('branches_hit', {}).items()):
+            if has_branches(ctx, m): chk.stat('branch:%s:%s' % (m['name'], bid), cnt)
     chk.stat('seconds_models', round(time.time() - t_start, 1))
     # ---- the law behind the nesting theorems
     zero_duration_checks(chk, ctx, rng, 2 if tier == 'quick' else 8)
@@ -814,6 +920,10 @@ def _run(chk, ctx):
                 if ok: chk.k_ok('c15.pairs')
                 else: chk.k_bad('c15.pairs', dict(a=a, b=b, args=args), 'hand table', 'nestOK = false', 'nesting')
                 nesting_check(chk, ctx, byname, group, a, b, args, rng, reps=1 if tier == 'quick' else 5)
+        for a, args_a, path, b, args_b, ok, conds in ask_json(driver, 'c15.branchpairs'):
+            if ok: chk.k_ok('c15.branchpairs')
+            else: chk.k_bad('c15.branchpairs', dict(a=a, b=b, args=args_a, path=path), 'hand table', 'nestOKAt = false', 'nesting')
+            nesting_check(chk, ctx, byname, 'branch', a, b, args_a, rng, reps=2 if tier == 'quick' else 6, args_b=args_b, conds=conds)
         chk.stat('seconds_nesting', round(time.time() - t1, 1)); t1 = time.time()
         order = list(rng.permutation(len(sym)))
         todo = order if tier == 'thorough' else order[:12]
@@ -856,15 +966,6 @@ def _replay(chk, ctx, data):
         _run(chk, ctx)
 
 def nesting_replay(chk, ctx, ma, mb, inp):
-    pb = inp['params_b']; ns = tuple(inp['ns']); pts = inp['pts']; a, b = inp['a'], inp['b']
-    va = pair_args(inp['args'], pb)
-    chk.l3(('nest', a, b))
-    try:
-        with np.errstate(all='ignore'):
-            fa = ma['f'](va, ns, pts); fb = mb['f'](vec(mb, pb), ns, pts)
-    except Exception as e:
-        chk.fail('%s->%s:nesting:%s' % (a, b, type(e).__name__), 'nesting pair raises %r' % (e,), inp); return
-    da = np.asarray(fa.data, dtype=float); db = np.asarray(fb.data, dtype=float); mk = ~np.ma.getmaskarray(fb)
-    scale = float(np.max(np.abs(db[mk]))); err = float(np.max(np.abs(da[mk] - db[mk])))
-    if not (err <= 1e-8 * max(scale, 1e-300)):
-        chk.fail('%s->%s:nesting' % (a, b), '%s%r and %s%r differ by %.3e (scale %.3e) at the nesting point' % (a, va, b, vec(mb, pb), err, scale), inp)
+    env = inp['env']; ns = tuple(inp['ns']); pts = inp['pts']; a, b = inp['a'], inp['b']
+    va = pair_args(inp['args'], env); vb = pair_args(inp['args_b'], env)
+    compare_pair(chk, ctx, ma, mb, a, b, va, vb, ns, pts, inp.get('group', ''), inp)
